@@ -21,6 +21,11 @@ def closure(facts, kinds, taker):
             if f == "members":                        # inverse MemberOf: on the member, or on its role taker
                 tgt = taker.get(o, o)
                 new.add((tgt, "member_of", s))
+            if f == "wholly_owned_by":                # sub-property of sub_org_of, itself transitive
+                new.add((s, "sub_org_of", o))
+                for (s2, f2, o2) in F:
+                    if f2 == f and s2 == o:
+                        new.add((s, f, o2))
             if f == "sub_org_of":                     # transitive
                 for (s2, f2, o2) in F:
                     if f2 == f and s2 == o:
@@ -49,7 +54,7 @@ def observe_fields(om, named):
     raw = {}
     for n, o in named.items():
         if isinstance(o, om.Org):
-            fl = ("members", "sub_org_of", "part_of", "has_part")
+            fl = ("members", "sub_org_of", "part_of", "has_part", "wholly_owned_by")
         elif isinstance(o, om.Person):
             fl = ("works_for", "member_of")
         else:
